@@ -91,6 +91,7 @@ def fingerprintHostname (E : Env) (stripSfx : Bool) (hostname : Str) : Except Er
 `getNormalizedHostname` -/
 def getFingerprintedHostname (E : Env) (hostOf : Str → Option Str) (inferRedirection stripSfx : Bool)
     (url : Str) : Except Err (Option Str) :=
+  let url := lower url
   let u := if inferRedirection then infer url else url
   match hostOf (ensureProtocol (strip (stripControl u)) "http".toList) with
   | none => .ok none
@@ -122,6 +123,8 @@ def fingerprintUrlSplit (E : Env) (stripSfx : Bool) (url : Str) : Except Err Spl
 
 /-- `fingerprint_url(url, strip_suffix, platform_aware)` -/
 def fingerprintUrl (E : Env) (stripSfx : Bool) (url : Str) : Except Err Str :=
-  (fingerprintUrlSplit E stripSfx url).map (fun r => (urlunsplit r).drop 2)
+  (fingerprintUrlSplit E stripSfx url).map (fun r =>
+    let s := urlunsplit r
+    if startsWith s ['/', '/'] then s.drop 2 else s)
 
 end Ural.Fingerprint
